@@ -29,6 +29,7 @@ import (
 	"math/big"
 	"net/http/httptest"
 	"os"
+	"runtime/debug"
 	"sort"
 	"strconv"
 	"strings"
@@ -68,6 +69,7 @@ type evLogSpec struct {
 	Sender string `json:"sender"`
 	Seq    int    `json:"seq"`
 	CL     int    `json:"cl"`
+	Null   bool   `json:"null"` // the receipt's log list has a null entry here (never a message, never delivered)
 }
 
 type evMid struct {
@@ -304,6 +306,10 @@ func (n *evNode) emit(ev string, a map[string]interface{}, s map[string]interfac
 		s = map[string]interface{}{}
 	}
 	n.tr.Emit(n.sc, ev, a, s)
+	// every line reaches the file at once: if the code under test crashes the process, the history up to the crash is on record
+	n.tr.mu.Lock()
+	n.tr.w.Flush()
+	n.tr.mu.Unlock()
 }
 
 func evBlk(num uint64, g int) []int { return []int{int(num), g} }
@@ -719,7 +725,11 @@ func (e *evEth) GetTransactionReceipt(ctx context.Context, h ethcommon.Hash) (*e
 	n.emit(ev, map[string]interface{}{"tx": tx, "resp": map[string]interface{}{"kind": "found", "status": int(r.status), "blk": evBlk(r.n, r.g)}}, nil)
 	rc := &ethtypes.Receipt{Status: r.status, CumulativeGasUsed: 21000, TxHash: h, GasUsed: 21000,
 		BlockHash: n.blkHash(r.n, r.g), BlockNumber: new(big.Int).SetUint64(r.n), TransactionIndex: 0}
-	for i := range n.txs[tx] {
+	for i, l := range n.txs[tx] {
+		if l.Null {
+			rc.Logs = append(rc.Logs, nil)
+			continue
+		}
 		rc.Logs = append(rc.Logs, n.concreteLog(tx, i, r))
 	}
 	after()
@@ -844,11 +854,20 @@ func (c *evCore) Write(e zapcore.Entry, fs []zapcore.Field) error {
 // ---------------------------------------------------------------- running one scenario
 
 type evRun struct {
-	n       *evNode
-	w       *Watcher
-	reqC    chan *gossipv1.ObservationRequest
-	runExit chan error
-	fin     bool
+	n      *evNode
+	w      *Watcher
+	reqC   chan *gossipv1.ObservationRequest
+	fin    bool
+	exitMu sync.Mutex
+	exited bool   // Watcher.Run is no longer running although the scenario has not ended
+	exitEv string // "RunExit" | "Crash"
+	exitA  map[string]interface{}
+}
+
+func (r *evRun) hasExited() bool {
+	r.exitMu.Lock()
+	defer r.exitMu.Unlock()
+	return r.exited
 }
 
 // waitFor polls cond (never holding n.mu across the sleep) until it holds or the deadline passes.
@@ -863,7 +882,7 @@ func (r *evRun) waitFor(cond func() bool) bool {
 			}
 			return true
 		}
-		if time.Since(t0) > evCurDeadline() {
+		if time.Since(t0) > evCurDeadline() || r.hasExited() {
 			return false
 		}
 		if i < 50 {
@@ -893,12 +912,17 @@ func evCurDeadline() time.Duration {
 }
 
 func (r *evRun) line(ev string, a map[string]interface{}, s map[string]interface{}) {
-	if ev == "Stall" || ev == "Timeout" {
+	if (ev == "Stall" || ev == "Timeout") && r.hasExited() {
+		r.exitMu.Lock()
+		ev, a = r.exitEv, r.exitA
+		r.exitMu.Unlock()
+	}
+	if ev == "Stall" || ev == "Timeout" || ev == "RunExit" || ev == "Crash" {
 		atomic.AddInt32(&evStalls, 1)
 	}
 	r.n.mu.Lock()
 	r.n.drain()
-	if ev == "Stall" {
+	if ev == "Stall" || ev == "RunExit" || ev == "Crash" {
 		r.n.stalled = true
 	}
 	r.n.emit(ev, a, s)
@@ -993,8 +1017,8 @@ func (r *evRun) pushLog(st evStep) bool {
 		return true
 	}
 	lg := n.concreteLog(tx, idx, rc)
-	delivered := n.matches(lg)
 	l := n.txs[tx][idx]
+	delivered := n.matches(lg) && !l.Null
 	key := pendingKey{TxHash: lg.TxHash, BlockHash: lg.BlockHash, EmitterAddress: PadAddress(n.sender(l.Sender)), Sequence: uint64(l.Seq)}
 	n.mu.Unlock()
 	if delivered {
@@ -1134,17 +1158,30 @@ func evRunScenario(t *testing.T, tr *vhTrace, sc evScenario) {
 		w.maxWaitConfirmations = uint64(sc.Cfg.W)
 	}
 	n.w = w
-	r := &evRun{n: n, w: w, reqC: reqC, runExit: make(chan error, 1), fin: sc.Cfg.Fin}
+	r := &evRun{n: n, w: w, reqC: reqC, fin: sc.Cfg.Fin}
 
 	logger := zap.New(&evCore{n})
 	ctx, cancel := context.WithCancel(context.Background())
 	defer cancel()
 	supervisor.New(ctx, logger, func(ctx context.Context) error {
-		err := w.Run(ctx)
-		select {
-		case r.runExit <- err:
-		default:
-		}
+		func() {
+			defer func() {
+				if p := recover(); p != nil {
+					r.exitMu.Lock()
+					r.exited, r.exitEv = true, "Crash"
+					r.exitA = map[string]interface{}{"panic": fmt.Sprint(p), "stack": string(debug.Stack())}
+					r.exitMu.Unlock()
+				}
+			}()
+			err := w.Run(ctx)
+			if ctx.Err() == nil {
+				// the scripted node is healthy (no failure is ever injected into a call whose failure ends Run)
+				r.exitMu.Lock()
+				r.exited, r.exitEv = true, "RunExit"
+				r.exitA = map[string]interface{}{"err": fmt.Sprint(err)}
+				r.exitMu.Unlock()
+			}
+		}()
 		<-ctx.Done()
 		return ctx.Err()
 	})
@@ -1162,6 +1199,11 @@ func evRunScenario(t *testing.T, tr *vhTrace, sc evScenario) {
 		return ini && sub && rec() && w.ethConn != nil
 	})
 	n.mu.Lock()
+	if !n.initDone {
+		// Run ended before the poller's first head read: the history starts (and ends) with what it did instead
+		n.initTag = r.tag()
+		n.initHead, _ = n.headFor(n.initTag)
+	}
 	n.emit("Start", map[string]interface{}{"fin": sc.Cfg.Fin, "W": int(w.maxWaitConfirmations), "latest": int(n.latest), "final": int(n.final),
 		"tag": n.initTag, "pl": int(n.initHead)}, nil)
 	n.mu.Unlock()
@@ -1176,11 +1218,9 @@ func evRunScenario(t *testing.T, tr *vhTrace, sc evScenario) {
 
 	alive := true
 	for _, st := range sc.Steps {
-		select {
-		case err := <-r.runExit:
-			r.line("Timeout", map[string]interface{}{"what": fmt.Sprint("Run returned: ", err)}, nil)
+		if r.hasExited() {
+			r.line("Timeout", map[string]interface{}{"what": "run"}, nil) // recorded as RunExit / Crash
 			alive = false
-		default:
 		}
 		if !alive {
 			break
